@@ -4,6 +4,7 @@ passlib.utils.binary - binary data encoding/decoding/manipulation
 
 from __future__ import annotations
 
+import threading
 from base64 import (
     b32decode as _b32decode,
 )
@@ -835,15 +836,24 @@ class LazyBase64Engine(Base64Engine):
     def __init__(self, *args, **kwds):
         self._lazy_opts = (args, kwds)
 
+    #: serializes first-use initialization across threads
+    _lazy_lock = threading.RLock()
+
     def _lazy_init(self):
-        args, kwds = self._lazy_opts
-        super().__init__(*args, **kwds)
-        del self._lazy_opts
-        self.__class__ = Base64Engine
+        with LazyBase64Engine._lazy_lock:
+            # NOTE: reading the instance dict directly, since another thread may have
+            #       finished the job (and switched the class) while we waited for the lock.
+            opts = object.__getattribute__(self, "__dict__").get("_lazy_opts")
+            if opts is None:
+                return
+            args, kwds = opts
+            super().__init__(*args, **kwds)
+            del self._lazy_opts
+            self.__class__ = Base64Engine
 
     def __getattribute__(self, attr):
         if not attr.startswith("_"):
-            self._lazy_init()
+            LazyBase64Engine._lazy_init(self)
         return object.__getattribute__(self, attr)
 
 
